@@ -134,3 +134,17 @@ pub fn set_skip_error_trace(skip: bool) {
 pub fn skip_error_trace() -> bool {
     SKIP_ERROR_TRACE.load(Ordering::Relaxed)
 }
+
+static QUARANTINE: std::sync::atomic::AtomicBool = std::sync::atomic::AtomicBool::new(false);
+
+/// Quarantine mode (for the native replay of use-after-free counterexamples): a swept object's
+/// body is dropped, overwritten with a poison pattern and its memory is kept instead of being
+/// released, so that a stale read deterministically sees poison instead of depending on what
+/// the system allocator does with freed memory.
+pub fn set_quarantine(on: bool) {
+    QUARANTINE.store(on, Ordering::Relaxed);
+}
+
+pub fn quarantine() -> bool {
+    QUARANTINE.load(Ordering::Relaxed)
+}
